@@ -18,7 +18,7 @@ BORDER = ["line_ht_char", "line_hc_char", "line_hb_char", "line_vl_char", "line_
           "corner_tl_char", "corner_tr_char", "corner_bl_char", "corner_br_char",
           "crossing_c_char", "crossing_l_char", "crossing_t_char", "crossing_r_char", "crossing_b_char", "style"]
 ALIGN_OPS = ["set_column_alignment", "column_alignments", "default_column_alignment"]
-ANSI_IO = {"utf8": True, "ansi": True, "verb": "normal", "width": 40}
+ANSI_IO = {"utf8": True, "ansi": True, "verb": "normal", "width": 40, "ind": 0}
 
 
 TAGGED = {"bold": lambda st: st.bold(), "red": lambda st: st.fg("red"), "blue": lambda st: st.bg("blue"),
@@ -48,9 +48,9 @@ def style_name(st):
     return "bold" if st.is_bold() else "#"
 
 
-NOIO = {"utf8": True, "ansi": False, "verb": "normal", "width": 60}
+NOIO = {"utf8": True, "ansi": False, "verb": "normal", "width": 60, "ind": 0}
 KINDS = ["borderless", "compact", "ascii", "solid"]
-COMPONENTS = ["table", "para", "parared", "labeled", "namever", "empty", "apphelp", "cmdhelp", "trace", "trace2"]
+COMPONENTS = ["table", "para", "parared", "labeled", "labels", "block", "namever", "empty", "apphelp", "cmdhelp", "trace", "trace2"]
 LOREM = ("<b>Lorem</b> ipsum dolor sit amet, consetetur sadipscing elitr, sed diam nonumy eirmod tempor invidunt ut "
          "labore et dolore magna aliquyam erat, sed diam voluptua.")
 
@@ -85,6 +85,45 @@ def _caught(fn):
         fn()
     except Exception as e:  # noqa
         return e
+
+
+class AlignedLabels(object):
+    """ONE LabelAlignment with aligned LabeledParagraphs, rendered the way BlockLayout does: align, then every paragraph"""
+
+    def __init__(self):
+        from clikit.ui.alignment import LabelAlignment
+        from clikit.ui.components import LabeledParagraph
+
+        self.alignment = LabelAlignment()
+        self.paragraphs = [LabeledParagraph("<c1>--name</c1>", "The name of the thing that is " + LOREM),
+                           LabeledParagraph("<c1>-v</c1>", "short"), LabeledParagraph("<c1>--a-longer-label</c1>", "another text")]
+        for p in self.paragraphs:
+            self.alignment.add(p)
+            p.set_alignment(self.alignment)
+
+    def render(self, io, indentation=0):
+        self.alignment.align(io, indentation)
+        for p in self.paragraphs:
+            p.render(io, indentation)
+
+
+class RefilledBlock(object):
+    """ONE BlockLayout; before every render it is filled with the same paragraph and labeled paragraphs (render empties it)"""
+
+    def __init__(self):
+        from clikit.ui.layout import BlockLayout
+
+        self.layout = BlockLayout()
+
+    def render(self, io, indentation=0):
+        from clikit.ui.components import EmptyLine, LabeledParagraph, Paragraph
+
+        self.layout.add(Paragraph("<b>OPTIONS</b>"))
+        with self.layout.block():
+            self.layout.add(LabeledParagraph("<c1>--name</c1>", "The name of the thing that is " + LOREM))
+            self.layout.add(LabeledParagraph("<c1>-v</c1>", "short"))
+        self.layout.add(EmptyLine())
+        self.layout.render(io, indentation)
 
 
 class Driver(object):
@@ -190,6 +229,10 @@ class Driver(object):
                 c = Table(TableStyle.ascii())
                 c.set_header_row(["<b>Name</b>", "Text"])
                 c.add_rows([["one", LOREM.replace("<b>", "").replace("</b>", "")], ["two", "short"]])
+            elif comp == "labels":
+                c = AlignedLabels()
+            elif comp == "block":
+                c = RefilledBlock()
             elif comp == "para":
                 c = Paragraph(LOREM)
             elif comp == "parared":
@@ -243,10 +286,16 @@ class Driver(object):
         if k == "render":
             io = self.io(op["io"], redefined=(op["comp"] == "parared"))
             try:
-                if op["inst"] == 2:  # the other route: indentation given explicitly
-                    self.component(op["comp"], op["inst"]).render(io, 0)
+                c = self.component(op["comp"], op["inst"])
+                ind = op["io"].get("ind", 0)
+                if op["comp"] in ("trace", "trace2"):  # the second parameter of an error trace is not an indentation
+                    c.render(io)
+                elif op["inst"] == 2:  # routes: indentation by keyword / positional / omitted
+                    c.render(io, indentation=ind)
+                elif ind:
+                    c.render(io, ind)
                 else:
-                    self.component(op["comp"], op["inst"]).render(io)
+                    c.render(io)
                 text = io.fetch_output() + "\x00" + io.fetch_error()
             except Exception as e:  # noqa: an exception kind is an observation
                 text = "EXC " + type(e).__name__
@@ -269,7 +318,7 @@ def run_ops(ops, refs=None):
 
 
 def ref_key(comp, io):
-    return "%s/%d%d%s%d" % (comp, bool(io["utf8"]), bool(io["ansi"]), io["verb"], io.get("width", 60))
+    return "%s/%d%d%s%d/%d" % (comp, bool(io["utf8"]), bool(io["ansi"]), io["verb"], io.get("width", 60), io.get("ind", 0))
 
 
 def style_key(history):
@@ -343,13 +392,13 @@ def _ref_server():
     sys.stdout.write(json.dumps(out))
 
 
-ALL_IOS = [{"utf8": u, "ansi": a, "verb": v, "width": w} for u in (True, False) for a in (True, False)
+ALL_IOS = [{"utf8": u, "ansi": a, "verb": v, "width": w, "ind": 0} for u in (True, False) for a in (True, False)
            for v in ("normal", "verbose", "debug") for w in (60, 40)]
 
 
-def random_ops(rng, n):
+def random_ops(rng, n, ios=None):
     ops, nstyles = [], 0
-    ios = ALL_IOS
+    ios = ios or ALL_IOS
     for _ in range(n):
         r = rng.random()
         if r < 0.25 and nstyles < 6 or (nstyles == 0 and r < 0.5):
@@ -369,8 +418,8 @@ def random_ops(rng, n):
             ops.append({"op": "align", "s": rng.randint(1, nstyles), "field": how, "col": rng.randint(0, 2), "a": rng.randint(0, 2),
                         "seq": [rng.randint(0, 2) for _ in range(rng.randint(0, 3))] if how == "column_alignments" else []})
         else:
-            c = rng.choice(COMPONENTS + ["trace", "trace", "table"])
-            ops.append({"op": "render", "comp": c, "inst": rng.choice([1, 1, 2]), "io": rng.choice(ios)})
+            c = rng.choice(COMPONENTS + ["trace", "trace", "table", "labels", "labels", "block"])
+            ops.append({"op": "render", "comp": c, "inst": rng.choice([1, 1, 2]), "io": dict(rng.choice(ios), ind=rng.choice([0, 0, 4, 4, 2, 6] if len(ios) > 8 else [0, 0, 4]))})
     return ops
 
 
@@ -406,8 +455,10 @@ def run_styles(ctx):
         "set_column_alignment(col, a) in any order (columns 0..2 of a 3-column table), assigning any of the 15 characters or the style of its border_style",
         "styles: cell / header / rule styles are untagged Style objects or tagged ones ('hdr:bold' = Style('hdr').bold()); equal tags "
         "with different attributes are different styles; a style carrying a tagged Style is also compared with a fresh process",
-        "styles: 'component' = Table, Paragraph (also on a formatter whose style set redefines the stock tag c1), LabeledParagraph, EmptyLine, NameVersion, ApplicationHelp, CommandHelp, ExceptionTrace "
-        "(BlockLayout, which empties itself when rendered, is a layout helper and not included)",
+        "styles: 'component' = Table, Paragraph (also on a formatter whose style set redefines the stock tag c1), LabeledParagraph, "
+        "one LabelAlignment with three aligned LabeledParagraphs (align + render, as a block layout does), one BlockLayout "
+        "re-filled with the same elements before every render, EmptyLine, NameVersion, ApplicationHelp, CommandHelp, ExceptionTrace "
+        "(a BlockLayout that is rendered again WITHOUT being re-filled shows nothing - it empties itself by design - and is not judged)",
         "styles: every behaviour starts from a fresh process (class-level caches are emptied by the driver between behaviours)",
         "styles: an I/O is characterised by UTF-8 support, ANSI/plain formatter, verbosity and a fixed width of 60",
     ]
@@ -436,10 +487,17 @@ def run_styles(ctx):
     recs = T.emitted(r)
     if len(recs) < 1000:
         raise T.MachineryError("MC_Styles renders family emitted only %d behaviours" % len(recs))
-    if quick:  # every eighth pair, chosen by the seed: the full set is replayed in the thorough tier
-        recs = recs[ctx.seed % 8 :: 8]
+    if quick:  # every sixteenth pair, chosen by the seed: the full set is replayed in the thorough tier
+        recs = recs[ctx.seed % 16 :: 16]
     for b in recs:
         add(_render_ops(b), "tlc-renders")
+    # one LabelAlignment / one BlockLayout rendered three times at changing indentations: all sequences, both tiers
+    r = ctx.model(SPEC, "MC_Styles", "MC_Styles_renders_align.cfg", name="renders-alignment-sequences", workers=8)
+    recs = T.emitted(r)
+    if len(recs) < 1000:
+        raise T.MachineryError("MC_Styles alignment family emitted only %d behaviours" % len(recs))
+    for b in recs:
+        add(_render_ops(b), "tlc-renders-align")
     if not quick:
         r = ctx.model(SPEC, "MC_Styles", "MC_Styles_renders_sim.cfg", name="renders-simulate", simulate="num=150", depth=7, workers=1,
                       seed=ctx.seed % 100000)
@@ -448,15 +506,20 @@ def run_styles(ctx):
     ntlc = len(todo)
     # ---- code -> spec: longer seeded random mixes
     for _ in range(100 if quick else 1500):
-        add(random_ops(ctx.rng, ctx.rng.randint(4, 40)), "random")
+        add(random_ops(ctx.rng, ctx.rng.randint(4, 40), ALL_IOS[::3] if quick else ALL_IOS), "random")
     # ---- references: what a fresh process shows (components on every I/O; styles that carry tagged Style objects)
     wanted = {}
     for ops, _o, _e in todo:
         for h in own_histories(ops):
             if wants_reference(h):
                 wanted.setdefault(style_key(h), h)
-    refs = fresh_references([[c, io] for c in COMPONENTS for io in ALL_IOS] + [["S/", h] for h in wanted.values()])
-    if len(refs) != len(COMPONENTS) * len(ALL_IOS) + len(wanted) or any(v.startswith("EXC-IN-REFERENCE") for v in refs.values()):
+    pairs = {}
+    for ops, _o, _e in todo:
+        for o in ops:
+            if o["op"] == "render":
+                pairs.setdefault(ref_key(o["comp"], o["io"]), [o["comp"], o["io"]])
+    refs = fresh_references(list(pairs.values()) + [["S/", h] for h in wanted.values()])
+    if len(refs) != len(pairs) + len(wanted) or any(v.startswith("EXC-IN-REFERENCE") for v in refs.values()):
         raise T.MachineryError("reference renders incomplete")
     ctx.extra["styles_fresh_process_references"] = len(refs)
     for ops, origin, expect in todo:
